@@ -32,3 +32,65 @@ def guarded(rep, rule, func, fn):
 
 def site_of_block(body, b):
     return body.blocks[b]["term"]["span"]
+
+
+# ---- guard comparison by truth table --------------------------------------
+def norm_fact(f):
+    """Hashable normal form of a pred fact: comparison facts become canonical polynomial
+    normal forms (orientation, negation and constant folding do not matter), others stay (atom, pol)."""
+    from ..poly import fact_nf
+    if f[0][0] == "cmp":
+        return fact_nf(f)
+    return (f[0], f[1])
+
+
+def neg_norm(nf):
+    from ..poly import negate_cmp
+    if isinstance(nf[0], str):
+        return negate_cmp(nf)
+    return (nf[0], not nf[1])
+
+
+def truth_row(facts, atoms, ignore=None):
+    """Partial assignment {atom index: bool} that a conjunction of facts gives to the listed
+    atoms (each a fact with positive polarity).  A fact about none of the atoms makes the
+    row unknown (None) unless ignore(fact) accepts it."""
+    natoms = [norm_fact(a) for a in atoms]
+    row = {}
+    for f in facts:
+        nf = norm_fact(f)
+        hit = False
+        for i, a in enumerate(natoms):
+            if nf == a:
+                if row.get(i) is False:
+                    return "infeasible"
+                row[i] = True
+                hit = True
+            elif nf == neg_norm(a):
+                if row.get(i) is True:
+                    return "infeasible"
+                row[i] = False
+                hit = True
+        if not hit and not (ignore is not None and ignore(f)):
+            return None
+    return row
+
+
+def row_models(rows, n, feasible=None):
+    """Total assignments over n atoms consistent with at least one partial row."""
+    import itertools
+    out = set()
+    for bits in itertools.product([False, True], repeat=n):
+        if feasible is not None and not feasible(bits):
+            continue
+        for r in rows:
+            if all(bits[i] == v for i, v in r.items()):
+                out.add(bits)
+                break
+    return out
+
+
+def universe(n, pred, feasible=None):
+    import itertools
+    return {bits for bits in itertools.product([False, True], repeat=n)
+            if (feasible is None or feasible(bits)) and pred(bits)}
